@@ -131,7 +131,7 @@ def rule_table(ctx, repo, lg):
             continue
         S, result, problem = lg.interpret(paths[0])
         if problem:
-            if 'positional' in problem:
+            if 'positional' in problem or problem.startswith('DEFECT:'):
                 g['bad'].append((ht, problem))
             else:
                 g['und'].append((ht, problem))
